@@ -25,3 +25,14 @@ def register(J):
                      unwind=8, tier="T1", timeout=300, mem_gb=4, expect=[fn + r"\.postcondition\."],
                      statement="C16: %s has exactly its documented effect on the restriction flags and "
                                "writes nothing else." % fn))
+    for n, fn in enumerate(["econf_comment_tag", "econf_delimiter_tag", "econf_set_comment_tag", "econf_set_delimiter_tag"], 6):
+        J.append(Job("tags." + fn, ["C07", "C10"], "harness/security.c", sources=["lib/libeconf.c"],
+                     contracts=["contracts/security.h"], enforce=fn, defines=["-DFN=%d" % n],
+                     unwind=8, tier="T1", timeout=300, mem_gb=4, expect=[fn + r"\.postcondition\."],
+                     statement="C07/C10: %s reads/writes exactly the object's tag, accepts NULL, touches nothing else." % fn))
+    J.append(Job("abspath", ["C17", "C13"], "harness/abspath.c", sources=["lib/helpers.c"], unwind=10, tier="T2",
+                 timeout=300, mem_gb=4, nobody_ok=[".*"], functions=["get_absolute_path"],
+                 bounds="file name < 6 bytes, resolved path < 8 bytes", model="M-real",
+                 trusted=["realpath fails or writes an absolute path into the caller's buffer"],
+                 statement="C17: get_absolute_path copies an absolute name, resolves a relative one through realpath, "
+                           "returns NULL (and ECONF_NOFILE) when that fails."))
